@@ -39,14 +39,7 @@ import (
 	"verifharness/hx"
 )
 
-func freeAddr() string {
-	ln, err := hx.Listen("tcp", "127.0.0.1:0")
-	if err != nil {
-		panic(err)
-	}
-	defer ln.Close()
-	return ln.Addr().String()
-}
+func freeAddr() string { return hx.FreeAddr() }
 
 func waitListening(addr string) bool {
 	for i := 0; i < 400; i++ {
